@@ -18,6 +18,7 @@ import (
 	"path/filepath"
 	"sort"
 	"strings"
+	"syscall"
 	"time"
 
 	"lcverif/common"
@@ -50,6 +51,9 @@ type Input struct {
 	Files     []FileSpec `json:"files"`
 	Bin       bool       `json:"run_binary"`
 	Note      string     `json:"note,omitempty"`
+	// SeparateFS: every directory that holds a regular file is a file system of its own (a fresh
+	// tmpfs): files of a chain then have equal inode numbers on different devices
+	SeparateFS bool `json:"separate_fs,omitempty"`
 }
 
 func init() {
@@ -415,7 +419,6 @@ func genCase(r *rng.R, malformed bool) Input {
 	return in
 }
 
-
 // Chains whose files read so far (with -basepath / LAYERROOT if given) already supply every
 // setting, followed by the interesting thing: a loop back to a visited file, a file with an
 // unknown key, a missing or unreadable file, or a harmless further file.  The rest of the chain
@@ -564,6 +567,9 @@ func Generate(r *rng.R, tier string, n int, emit func(*common.Case)) {
 		} else {
 			in = genCase(cr, i%5 == 4)
 		}
+		if rng.New(sub^0x5e9a7a7e).Chance(1, 6) {
+			in.SeparateFS = true
+		}
 		c := Run(in)
 		c.Sub = sub
 		emit(c)
@@ -580,6 +586,11 @@ func root() string {
 	}
 	return rootDir
 }
+
+// privateMountNS: the driver started the harness under unshare -m (LCV_ISOLATED), so mounts made
+// here are invisible elsewhere and vanish with the process
+func privateMountNS() bool { return os.Getenv("LCV_ISOLATED") == "1" }
+
 func cleanupRoot() {
 	if rootDir != "" {
 		os.RemoveAll(rootDir)
@@ -617,6 +628,34 @@ func Run(in Input) (c *common.Case) {
 	}
 	if err := os.MkdirAll(rt, 0755); err != nil {
 		return fail("%v", err)
+	}
+	separateFS := false
+	if in.SeparateFS && privateMountNS() {
+		dirs := map[string]bool{}
+		for _, f := range in.Files {
+			if p := sub(f.Path); !f.Dir && len(f.Link) == 0 && strings.HasPrefix(p, rt+"/") && filepath.Dir(p) != rt {
+				dirs[filepath.Dir(p)] = true
+			}
+		}
+		var order []string
+		for d := range dirs {
+			order = append(order, d)
+		}
+		sort.Slice(order, func(i, j int) bool {
+			return len(order[i]) < len(order[j]) || len(order[i]) == len(order[j]) && order[i] < order[j]
+		})
+		var mounted []string
+		for _, d := range order {
+			if os.MkdirAll(d, 0755) == nil && syscall.Mount("tmpfs", d, "tmpfs", 0, "") == nil {
+				mounted = append(mounted, d)
+			}
+		}
+		defer func() {
+			for i := len(mounted) - 1; i >= 0; i-- {
+				syscall.Unmount(mounted[i], syscall.MNT_DETACH)
+			}
+		}()
+		separateFS = true
 	}
 	for _, f := range in.Files {
 		p := sub(f.Path)
@@ -806,6 +845,9 @@ func Run(in Input) (c *common.Case) {
 		classes = append(classes, "binary")
 	}
 	classes = append(classes, "obs="+strings.Fields(strings.Trim(obsTerm, "()"))[0])
+	if separateFS {
+		classes = append(classes, "separate-file-systems")
+	}
 	c.Classes = classes
 	chainLen := 0
 	fmt.Sscanf(in.Note, "chain=%d", &chainLen)
